@@ -146,7 +146,7 @@ def main(argv=None):
     outs = []
     if jobs:
         ctxmp = mp.get_context("fork")
-        with ctxmp.Pool(min(a.jobs, max(1, len(jobs))), maxtasksperchild=8) as pool:
+        with ctxmp.Pool(min(a.jobs, max(1, len(jobs))), maxtasksperchild=1) as pool:
             for o in pool.imap_unordered(_run_unit, jobs, chunksize=1):
                 outs.append(o)
                 if a.verbose:
